@@ -256,9 +256,9 @@ class Sequence:
         self.rel.set_channel(channel)
         self.invalidate_abs()
 
-    def split(self, capacities: list[int]) -> list[Sequence]:
+    def split(self, capacities: list[int], copy_messages: bool = True) -> list[Sequence]:
         """See `scoda.sequence.relative_sequence.RelativeSequence.split`."""
-        relative_sequences = self.rel.split(capacities)
+        relative_sequences = self.rel.split(capacities, copy_messages=copy_messages)
         sequences = [Sequence(relative_sequence=seq) for seq in relative_sequences]
         return sequences
 
@@ -462,7 +462,8 @@ class Sequence:
         """
         from scoda.elements.bar import Bar
 
-        sequences = [sequence for sequence in sequences_input]
+        # Work on copies, the bars must not share messages with the given sequences
+        sequences = [sequence.copy() for sequence in sequences_input]
 
         # Split into bars, carry key and time signature
         current_point_in_time = 0
@@ -513,7 +514,7 @@ class Sequence:
 
             # Split sequence into bars
             for i, sequence in enumerate(sequences):
-                split_up = sequence.split([length_bar])
+                split_up = sequence.split([length_bar], copy_messages=False)
 
                 # Check if we reached the end of the sequence
                 if len(split_up) > 1:
